@@ -169,6 +169,19 @@ func checkDecode(r *ev.Run, c *ev.Case, text, shape string) {
 			return
 		}
 	}
+	// every required member has the JSON type of its attribute (or is null, which the format lets stand for the zero
+	// value): a text in which one of them is something else does not contain that field, whatever else is odd about it
+	// besides (the optional usage member is not judged: the statement requires nothing of it)
+	for _, key := range required {
+		raw, ok := m[key]
+		if !ok {
+			continue
+		}
+		if !jsonTypeOK(key, raw) {
+			r.Violation(c, "decode-accepts-retyped-member:"+key, fmt.Sprintf("text=%q: member %q is %s, decoded to %s", text, key, trunc(string(raw)), show(k)), caseRec{Text: text, What: shape})
+			return
+		}
+	}
 	// the version the text declares must itself be the supported one: a null (or otherwise non-numeric) version field declares none
 	// (judged only when the field occurs once: with duplicated fields "the" declared version is ambiguous)
 	if v := strings.TrimSpace(string(m["ver"])); v != "1" && strings.Count(strings.ToLower(text), `"ver"`) == 1 {
@@ -190,6 +203,35 @@ func checkDecode(r *ev.Run, c *ev.Case, text, shape string) {
 		k.Principals[i] = "scribbled-by-caller"
 	}
 	k.TransID, k.IsNonce, k.Version = "scribbled", !k.IsNonce, 9
+}
+
+// jsonTypeOK: is raw a JSON value of the type the KeyID attribute key has (or null)?
+func jsonTypeOK(key string, raw json.RawMessage) bool {
+	t := strings.TrimSpace(string(raw))
+	if t == "null" {
+		return true
+	}
+	switch key {
+	case "prins":
+		var v []*string
+		return strings.HasPrefix(t, "[") && json.Unmarshal(raw, &v) == nil
+	case "transID", "reqUser", "reqIP", "reqHost":
+		return strings.HasPrefix(t, `"`)
+	case "isFirefighter", "isHWKey", "isHeadless", "isNonce":
+		return t == "true" || t == "false"
+	default: // usage, touchPolicy, ver: integers
+		if t == "" || strings.ContainsAny(t, ".eE\"[]{}tfn") {
+			return false
+		}
+		return t[0] == '-' || (t[0] >= '0' && t[0] <= '9')
+	}
+}
+
+func trunc(s string) string {
+	if len(s) > 60 {
+		return s[:60] + "..."
+	}
+	return s
 }
 
 func shapeClass(s string) string {
@@ -457,6 +499,27 @@ func surgery(text string, m map[string]json.RawMessage) []variant {
 			mm := clone(m)
 			mm[k] = json.RawMessage(rv)
 			out = append(out, variant{build(mm, keys, ""), "retype:" + k})
+		}
+	}
+	// two members retyped at once, either one first in the text (a decoder that reports only the first mistake it
+	// meets must not be talked out of the second by the first)
+	for _, k := range keys {
+		for _, k2 := range keys {
+			if k == k2 {
+				continue
+			}
+			for _, rvs := range [][2]string{{`"x"`, `"all"`}, {`[]`, `{}`}} {
+				mm := clone(m)
+				mm[k], mm[k2] = json.RawMessage(rvs[0]), json.RawMessage(rvs[1])
+				order := []string{k2, k}
+				for _, o := range keys {
+					if o != k && o != k2 {
+						order = append(order, o)
+					}
+				}
+				out = append(out, variant{build(mm, order, ""), "retype-pair:" + k + "+" + k2})
+				out = append(out, variant{build(mm, keys, ""), "retype-pair:" + k + "+" + k2})
+			}
 		}
 	}
 	// a valid encoding with something after (or before) it is not a KeyID
